@@ -553,9 +553,18 @@ def run_cell(gs, cell):
 # part A: replay of heap behaviours
 
 
+TRANSFORMS = {
+    "function": ("function", dict(function=lambda x: x + 1.0)),
+    "binary": ("binary", {}), "discrete": ("discrete", dict(values=[-1.0, 0.5, 2.0], thresholds="equal")), "zinnharvey": ("zinnharvey", {}),
+    "force_moments": ("normal_force_moments", {}), "lognormal": ("normal_to_lognormal", {}), "uniform": ("normal_to_uniform", {}),
+    "arcsin": ("normal_to_arcsin", {}), "uquad": ("normal_to_uquad", {}), "boxcox": ("boxcox", dict(lmbda=0.5, shift=3.0)),
+}
+NORMAL_KINDS = ["binary", "discrete", "zinnharvey", "force_moments", "uniform", "arcsin", "uquad"]
+
+
 def heap_replay(gs, beh, pipeline):
     """Returns None or (signature, description)."""
-    kw = dict(mean=2.0, trend=_trend, normalizer=gs.normalizer.LogNormal()) if pipeline else {}
+    kw = {"mean": dict(mean=2.0), True: dict(mean=2.0, trend=_trend, normalizer=gs.normalizer.LogNormal()), False: {}}[pipeline]
     model = gs.Gaussian(dim=2, var=0.25, len_scale=3)
     srf = gs.SRF(model, seed=11, mode_no=8, **kw)
     pos = base_pos()
@@ -582,8 +591,8 @@ def heap_replay(gs, beh, pipeline):
                 target = srf[src]
                 store = True if op["store"] == "same" else (False if op["store"] == "none" else op["store"])
                 try:
-                    out = srf.transform("function", field=src, store=store, process=op["process"],
-                                        function=lambda x: x + 1.0)
+                    method, tkw = TRANSFORMS[op.get("kind", "function")]
+                    out = srf.transform(method, field=src, store=store, process=op["process"], **tkw)
                 except Exception as ex:  # noqa: BLE001
                     return ("Transform:exception", "transform raised %r after %s" % (ex, [tlaval.to_tla(o) for o in hist]))
                 held.append(("returned by step %d" % len(hist), out))
@@ -668,23 +677,30 @@ def run(pid, tier, seed, replay=None):
         sc.write("MC_matrix.tla", mod)
         cfg = "CONSTANTS\n EntryTable <- McTable\n Layouts <- McLayouts\nINIT Init\nNEXT Next\nINVARIANT NoForeignWrite\n"
         jobs = [("matrix", sc, "MC_matrix", cfg, dict(workers=4, timeout=1800, dump=("states", sc.path("matrix.dump"))))]
+        kinds = list(TRANSFORMS) if thorough else ["function", "zinnharvey"]
+        names = ["field", "f2"]
+        defs = ('McNames == {%s}\nMcKinds == {%s}\nMcNormalKinds == {%s}\n'
+                % (", ".join('"%s"' % n for n in names), ", ".join('"%s"' % k for k in kinds),
+                   ", ".join('"%s"' % k for k in NORMAL_KINDS)))
+
+        def heap_cfg(maxbuf, normal, inpl, check):
+            return ("CONSTANTS\n Names <- McNames\n TKinds <- McKinds\n NormalKinds <- McNormalKinds\n MaxBuf = %d\n HasPipeline = TRUE\n"
+                    " NormalField = %s\n InPlacePipeline = %s\nINIT Init\nNEXT Next\n%s"
+                    % (maxbuf, "TRUE" if normal else "FALSE", "TRUE" if inpl else "FALSE",
+                       "INVARIANT EarlierResultsStable\nPROPERTY NoForeignWrite\n" if check else ""))
         for nm, inpl in (("MC_heap", False), ("NEG_heap", True)):
-            m = ('---- MODULE %s ----\nEXTENDS Alias\nMcNames == {"field", "f2"}\n====\n' % nm)
-            sc.write(nm + ".tla", m)
-            c = ("CONSTANTS\n Names <- McNames\n MaxBuf = %d\n HasPipeline = TRUE\n InPlacePipeline = %s\nINIT Init\nNEXT Next\n"
-                 "INVARIANT EarlierResultsStable\nPROPERTY NoForeignWrite\n" % (5, "TRUE" if inpl else "FALSE"))
-            jobs.append((nm, sc, nm, c, dict(workers=4, timeout=1800)))
-        m = '---- MODULE G_heap ----\nEXTENDS Alias\nMcNames == {"field", "f2"}\n====\n'
-        sc.write("G_heap.tla", m)
-        c = "CONSTANTS\n Names <- McNames\n MaxBuf = %d\n HasPipeline = TRUE\n InPlacePipeline = FALSE\nINIT Init\nNEXT Next\n" % (4 if not thorough else 5)
-        jobs.append(("G_heap", sc, "G_heap", c, dict(workers=4, timeout=1800, dump=("dot", sc.path("heap.dot")))))
+            sc.write(nm + ".tla", "---- MODULE %s ----\nEXTENDS Alias\n%s====\n" % (nm, defs))
+            jobs.append((nm, sc, nm, heap_cfg(5, False, inpl, True), dict(workers=4, timeout=1800)))
+        for nm, normal in (("G_heap_n", True), ("G_heap_f", False)):
+            sc.write(nm + ".tla", "---- MODULE %s ----\nEXTENDS Alias\n%s====\n" % (nm, defs))
+            jobs.append((nm, sc, nm, heap_cfg(4, normal, False, False), dict(workers=4, timeout=1800, dump=("dot", sc.path(nm + ".dot")))))
         res = tlc.run_many(jobs, parallel=4)
         for nm, r in res.items():
             tlc.must_pass(r, nm)
         if res["NEG_heap"].error is None:
             raise tlc.MachineryError("vacuity: Alias.tla does not detect in-place pipeline arithmetic")
         rep.extra["non_vacuity"] = "with InPlacePipeline = TRUE (the code before the repair) TLC reports %s %s" % res["NEG_heap"].error
-        for nm in ("matrix", "MC_heap", "G_heap"):
+        for nm in ("matrix", "MC_heap", "G_heap_n", "G_heap_f"):
             rep.add_tlc("Alias." + nm, res[nm])
             if res[nm].error:
                 rep.violation("design:%s:%s" % (nm, res[nm].error[1]), "the ideal alias model violates %s" % res[nm].error[1],
@@ -700,9 +716,11 @@ def run(pid, tier, seed, replay=None):
             seen.add(k)
             if role_applicable(cell["entry"], cell["role"], cell["layout"], set(cell["opts"])):
                 cells.append(cell)
-        nodes, edges, inits = tlc.read_dot(sc.path("heap.dot"))
-        ps, _ = paths.edge_cover(nodes, edges, inits, rng=rng, merge=True)
-        behs = [[nodes[i] for i in p] for p in ps]
+        behs = {}
+        for nm in ("G_heap_n", "G_heap_f"):
+            nodes, edges, inits = tlc.read_dot(sc.path(nm + ".dot"))
+            ps, _ = paths.edge_cover(nodes, edges, inits, rng=rng, merge=True)
+            behs[nm] = [[nodes[i] for i in p] for p in ps]
     rng.shuffle(cells)
     import multiprocessing as mp
 
@@ -726,15 +744,17 @@ def run(pid, tier, seed, replay=None):
                               "%s: caller array in role '%s' changed (cell under test: role '%s' in %s layout, options %s): %s"
                               % (cell["entry"], role, cell["role"], cell["layout"], cell["opts"], how),
                               {"cell": cell})
-        hjobs = [(pl, behs[i::7]) for pl in (False, True) for i in range(7)]
+        # no pipeline / constant mean only: a plain normal field (every transformation is available);
+        # mean + trend + normalizer: transformations that need a normal field must process it themselves
+        hjobs = [(pl, behs[g][i::7]) for pl, g in ((False, "G_heap_n"), ("mean", "G_heap_n"), (True, "G_heap_f")) for i in range(7)]
         for outs in pool.imap_unordered(_work_heap, hjobs):
             for beh, bad in outs:
                 rep.traces += 1
                 rep.count(1, nontrivial_key=tlaval.freeze([s["op"] for s in beh]))
                 if bad:
                     rep.violation("heap:" + bad[0], bad[1], {"ops": [s["op"] for s in beh[1:]]})
-        if behs:
-            rep.sample({"heap_behaviour": [tlaval.to_tla(s["op"]) for s in behs[0][1:]]}, cap=6)
+        if behs["G_heap_n"]:
+            rep.sample({"heap_behaviour": [tlaval.to_tla(s["op"]) for s in behs["G_heap_n"][0][1:]]}, cap=6)
     rep.extra["matrix_cells_executed"] = ncell
     return rep.finish(
         level="model_checking",
